@@ -121,9 +121,10 @@ class _EndCase(Exception):
 
 
 class _SwitchTo(Exception):
-    def __init__(self, obj):
+    def __init__(self, obj, model=None):
         Exception.__init__(self)
         self.obj = obj
+        self.model = model
 
 
 def rejected_changes(ctx, obj, m, S):
@@ -368,7 +369,18 @@ def one_case(ctx, sub, r, cid, max_hist, nq, call, agree, qcache, SC, S,
                 ctx.count("clone_not_possible:" + how)
                 raise S.Skip()
             ctx.count("continued_on_a_clone:" + how)
-            raise _SwitchTo(c)
+            mm2 = None
+            if how == "save-Load" and "w" in mm and mm["w"] is not None:
+                # the text formats carry the node weights with 15-16
+                # significant digits (how faithful a file is, is C05's
+                # subject): the history goes on from the weights the
+                # loaded object has, if they are the saved ones to 1e-12
+                lw = np.asarray(c.node_weights, dtype=float)
+                mw = np.asarray(mm["w"], dtype=float)
+                if lw.shape == mw.shape and np.allclose(lw, mw, rtol=1e-12,
+                                                        atol=0):
+                    mm2 = {**mm, "w": lw.copy()}
+            raise _SwitchTo(c, mm2)
         return ("continue-on:" + how, mut)
     # (FromIGraph on the object's own graph is no clone: the node weights
     #  are written to the graph only when it is saved)
@@ -397,7 +409,7 @@ def one_case(ctx, sub, r, cid, max_hist, nq, call, agree, qcache, SC, S,
             return
         except _SwitchTo as sw:
             obj = sw.obj
-            m2 = m
+            m2 = m if sw.model is None else sw.model
         except Exception as e:  # noqa
             ctx.violation(f"{sub.name}:<mutator>:{mname}:raises:"
                           f"{type(e).__name__}",
